@@ -208,6 +208,7 @@ impl Typed for C18 {
             }
         }
         ctx.add("probe.thread_switches", res.switches);
+        ctx.add("fault.scheduler_preemption", res.switches);
         let distinct_keys = by_key.len();
         if res.switches >= 2 && distinct_keys >= 2 {
             ctx.nontrivial();
